@@ -452,9 +452,9 @@ package service
 //@   params sg salt
 //@   ensures[C08,short-salt-not-server] len(salt) < 4 ==> result == false
 //@   trace[C08,tag-over-prefix] each service.(serverSaltGenerator).getTag satisfies sameslice($arg1, salt[:len(salt)-4])
-//@   trace[C08,compares-four-tag-bytes-with-mark] each bytes.Equal satisfies len($arg0) == 4 && $arg0.$arr == evres("service.(serverSaltGenerator).getTag", 0).$arr \
+//@   trace[C08,compares-four-tag-bytes-with-mark] each *.Equal satisfies len($arg0) == 4 && $arg0.$arr == evres("service.(serverSaltGenerator).getTag", 0).$arr \
 //@       && $arg0.$off == evres("service.(serverSaltGenerator).getTag", 0).$off && sameslice($arg1, salt[len(salt)-4:]) && result == $res0
-//@   trace[C08,decided-by-tag] exactly 1 bytes.Equal when len(salt) >= 4
+//@   trace[C08,decided-by-tag] exactly 1 *.Equal when len(salt) >= 4
 
 //@ func (randomServerSaltGenerator).IsServerSalt
 //@   props C08 C18
